@@ -27,9 +27,12 @@ def run(chk):
         'load that raises must leave the receiver intact. '
         'distinct_nontrivial = distinct (format, order, target kind, flags, '
         'container kind, #roots)')
-    chk.mc('MC_CopyLoad', 'MC_CopyLoad.cfg' if q else 'MC_CopyLoad_deep.cfg', timeout=5000)
     if not q:
+        chk.mc('MC_CopyLoad', 'MC_CopyLoad_deep.cfg', timeout=5000)   # ite over slot triples too
         chk.mc('MC_CopyLoad', 'MC_CopyLoad_q5.cfg', timeout=5000)     # build-only operands, one level deeper
+    # two managers, every receiver order: model-checked, then its paths replayed into two real
+    # managers through real pickle / JSON files, tables compared after every action
+    sh_graph = common.stage_copyload_graph(chk, limit=2500 if q else 14000)
     r = tlcrun.model_check('MC_CopyLoad', 'MC_CopyLoad_neg.cfg', 'neg', timeout=600)
     if 'is violated' not in r['out']:
         raise tlcrun.MachineryError('negative configuration MC_CopyLoad_neg was not refuted')
@@ -41,7 +44,7 @@ def run(chk):
                   seed=chk.seed * 17 + i, ntraces=per, tmpdir=tmp)
              for i in range(n)]
     sh, _ = chk.generate(xfer.c12_task, tasks)
-    chk.validate('TraceXfer', 'TraceXfer.cfg', sh)
+    chk.validate('TraceXfer', 'TraceXfer.cfg', sh + sh_graph)
 
     def wrong_root(tr):
         for ev in tr['events']:
